@@ -81,6 +81,26 @@ def check_flatteners(syn, res, rule, only_target=None):
                     else:
                         ln, rn = l["name"], r["name"]
                         body = cons["body"]
+                        while body["k"] in ("BlockExpr", "Block") and len(body["block"]["stmts"]) == 1 and body["block"]["stmts"][0]["k"] == "ExprStmt" and not body["block"]["stmts"][0].get("semi"):
+                            body = body["block"]["stmts"][0]["expr"]
+                        # the append may be a small local helper `h(conv(left), conv(right))` whose body is
+                        # `first.push(second); first` (parameters in this order)
+                        if body["k"] == "Call" and body["func"]["k"] == "Path" and len(body["args"]) == 2 and conv_of(body["args"][0], ln) and conv_of(body["args"][1], rn):
+                            hname = body["func"]["path"]["segs"][-1]
+                            hs = [x for x in f["items"] if x["k"] == "Fn" and x["name"] == hname]
+                            okh = False
+                            if len(hs) == 1 and len(hs[0]["inputs"]) == 2:
+                                pa, pb = [(i_["pat"].get("name") if "pat" in i_ else None) for i_ in hs[0]["inputs"]]
+                                hst = hs[0]["body"]["stmts"]
+                                okh = (len(hst) == 2 and hst[0]["k"] == "ExprStmt" and hst[0]["expr"]["k"] == "MethodCall" and hst[0]["expr"]["method"] == "push"
+                                       and ident_of(hst[0]["expr"]["recv"]) == pa and len(hst[0]["expr"]["args"]) == 1 and ident_of(hst[0]["expr"]["args"][0]) == pb
+                                       and hst[1]["k"] == "ExprStmt" and not hst[1].get("semi") and ident_of(hst[1]["expr"]) == pa)
+                            if not okh:
+                                problems.append("Cons arm appends through `%s`, which is not `first.push(second); first`" % hname)
+                            res.inst(rule, key, where, True, "ok (through helper %s)" % hname if not problems else "; ".join(problems))
+                            if problems:
+                                res.violate(rule, key + "|" + problems[0][:40], where, "list conversion %s: %s" % (target, "; ".join(problems)))
+                            continue
                         st = body["block"]["stmts"] if body["k"] == "BlockExpr" else []
                         good = len(st) == 3
                         if good:
